@@ -358,6 +358,14 @@ func c01Cover(c *Ctx, emit func(*Ctx, interface{}, string)) {
 					f[fld] = T{"rec": T{"SharedInbox": T{"iri": g.nextID("shared")}, "UploadMedia": T{"iri": g.nextID("upload")}}}
 				}
 				emit(c, T{"t": typ, "ptr": true, "f": f}, "cover/"+kind+"/"+sh)
+				if typ == "Object" && fld != "ID" && fld != "Type" {
+					// the same property as the ONLY content of an embedded object without id and type
+					// (admissible by the quantifier), in a single-item position and as a list member
+					bare := func() T { return T{"t": "Object", "ptr": true, "f": T{fld: cloneTree(f[fld])}} }
+					emit(c, T{"t": "Object", "ptr": true, "f": T{"ID": T{"s": g.nextID("holder")}, "Type": T{"s": "Note"}, "Location": bare()}}, "cover/bare-embedded/item")
+					emit(c, T{"t": "Activity", "ptr": true, "f": T{"ID": T{"s": g.nextID("holder")}, "Type": T{"s": "Create"}, "Object": bare(),
+						"Tag": T{"list": []interface{}{T{"iri": g.nextID("iri")}, bare()}}}}, "cover/bare-embedded/list")
+				}
 			}
 		}
 	}
@@ -365,7 +373,7 @@ func c01Cover(c *Ctx, emit func(*Ctx, interface{}, string)) {
 
 func init() {
 	campaigns["C01"] = func(c *Ctx) {
-		c.Rule = "covering set: one value per (Go struct, field, admissible shape: IRI / embedded object / link / list / type-less object; IRI list / mixed list / single embedded object; plain / tagged / multi-language text; +/- numbers; zoned instants; durations; sub-records), then values generated type-directed from the struct definitions (depth <= 2 quick / 3 thorough, each field set with probability 0.18, embedded objects by pointer and value, links, empty types on embedded objects, negative numbers, zones, multi-language text, distinct ids). Each value is encoded with MarshalJSON, decoded with UnmarshalJSON, and the decoded value's reflect dump is compared with the documented normal form of the original."
+		c.Rule = "covering set: one value per (Go struct, field, admissible shape: IRI / embedded object / link / list / type-less object; IRI list / mixed list / single embedded object; plain / tagged / multi-language text; +/- numbers; zoned instants; durations; sub-records; and every Object property as the only content of an embedded object without id and type, in a single-item position and as a list member), then values generated type-directed from the struct definitions (depth <= 2 quick / 3 thorough, each field set with probability 0.18, embedded objects by pointer and value, links, empty types on embedded objects, negative numbers, zones, multi-language text, distinct ids). Each value is encoded with MarshalJSON, decoded with UnmarshalJSON, and the decoded value's reflect dump is compared with the documented normal form of the original."
 		c01Cover(c, c01Case)
 		cfg := c01Cfg(c.N(2, 3))
 		for i := 0; i < c.N(2500, 60000); i++ {
